@@ -106,6 +106,7 @@ def loop_report(ctx, b, ev, res):
         # tokens
         edge_tok = {}
         blk_tok = {}
+        stale_waits = []
         for x in body:
             t = b.blocks[x]["term"]
             c = res.conds.get(x)
@@ -126,7 +127,24 @@ def loop_report(ctx, b, ev, res):
                     tgt = arm_vals.get(truev, t["otherwise"]) if truev in arm_vals or truev == 1 else t["otherwise"]
                     if truev == 1 and 1 not in arm_vals:
                         tgt = t["otherwise"]
-                    edge_tok.setdefault((x, tgt), set()).add("wait-on-marker")
+                    # waiting is progress only if the cycle re-reads what the marker's completion changes: a marker completes by unlinking the node
+                    # from its predecessor (the node's own word then stays REMOVED for as long as its memory is allocated) or undoes the mark.  A
+                    # cycle that keeps the loop-carried link it followed (the predecessor word / next offset) and re-reads only the marked node's word
+                    # waits for ever once the unlink succeeded and the new owner keeps the memory.
+                    hp = set()
+                    term_contains(c, lambda t_: hp.add(t_) or False if (tag(t_) == "phi" and str(t_[1][-1]).endswith("@%d" % h) and len(t_[1]) == 1 and isinstance(t_[2], int)) else False)
+                    stale = False
+                    if hp:
+                        inside = b.reach(tgt, removed=frozenset(backs), stop=frozenset()) & body
+                        for u in latches:
+                            if u in inside or u == tgt:
+                                envu = res.env_out.get(u, {})
+                                if all(envu.get(p_[2]) == p_ for p_ in hp):
+                                    stale = True
+                    if stale:
+                        stale_waits.append((x, tgt))
+                    else:
+                        edge_tok.setdefault((x, tgt), set()).add("wait-on-marker")
             # state change of a loop-carried local / a store / a successful list update
             for si, st in enumerate(b.blocks[x]["stmts"]):
                 pl = st["place"]
@@ -167,6 +185,8 @@ def loop_report(ctx, b, ev, res):
             for (x, y), tk in edge_tok.items():
                 toks |= tk
             ok = has[u] or bool(edge_tok.get((u, h)))
+            if stale_waits:
+                toks = set(toks) | {"STALE-WAIT at %s" % ", ".join(sorted(set(b.loc(x_) for x_, _ in stale_waits)))}
             out.append((h, u, ok, sorted(toks)))
     return out
 
